@@ -51,6 +51,7 @@ fn main() {
         "c02sov" => c02::run_sov(&a),
         "c02hostile" => c02::run_hostile(&a),
         "c01" => c01::run(&a),
+        "c01img" => c01::run_image(&a),
         x => { eprintln!("unknown subcommand {x}"); std::process::exit(2); }
     }
 }
